@@ -88,6 +88,9 @@ def families(tier):
     fams = [
         make_family('claim+claim', [claim(1, 1), claim(2, 3)]),
         make_family('claim+put_invs', [claim(1, 1), c05.put_invs(2)]),
+        # two claims racing to create the same consumer
+        make_family('new-claim(c7)+new-claim(c7)', [claim(1, 7, gen='null'),
+                                                    claim(2, 7, gen='null')]),
         # the same consumer: a claim racing a release
         make_family('claim(c1)+release(c1)', [claim(1, 1),
                                               c06.put_empty(2, 'int')]),
